@@ -376,6 +376,9 @@ O(id='emit_single_member_OER_constraint_value', props=['C02', 'C09'], kind='widt
   proves=['emit_single_member_OER_constraint_value'], unwind=4, bound='every pair of 128-bit bounds lb <= ub (loop-free)',
   trusted=['hook VLM_ASN1C_VERIF: ghost copies of width/positive', 'OUT()/expr_get_type: no body'], min_props=10, timeout=600, **EC)
 
+O(id='INTEGER_compare.b3', props=['C04', 'C01'], kind='bounded', entry='h_INTEGER_compare', functions=['INTEGER_compare'], unwind=6,
+  cbmc=['--no-malloc-may-fail'], bound='every pair of INTEGERs of 0..3 octets (exact-size heap buffers, NULL allowed for empty)', min_props=30, **INT_SAT)
+
 UNVERIFIED = {
  'C07': ['asn_encode_to_buffer / asn_encode_to_new_buffer / uper_encode_to_buffer / uper_encode_to_new_buffer with a UPER type encoder: obligations exist (tier experimental) but do not discharge (symbolic-length memcpy of the 32-octet bit scratch space runs out of memory); asn_encode with UPER is covered',
          'every constructed / generated type encoder is assumed to follow the operation-slot convention enumerated by the stub encoder',
